@@ -2,7 +2,10 @@
 
 Every blocking call on the connection (`sendall`, `recv_into`) blocks its greenlet until the
 harness lets it return with an outcome it chooses: 'ok', 'raise' (socket.error) or 'eof'.
-`open()` meets the outcome programmed in `next_connect`.  Nothing here imports scales: the
+`open()` meets the outcome programmed in `next_connect`.  `release_burst` lets a blocked read return
+and programs the outcomes of the reads that follow it, which then return *without blocking* — bytes
+(and an end of stream / error behind them) that arrived in one burst and are already buffered, so the
+reading greenlet does not yield between them.  Nothing here imports scales: the
 object stands for `scales.scales_socket.ScalesSocket` underneath the real `VarzSocketWrapper`."""
 import socket as _socket
 
@@ -26,12 +29,16 @@ class StepConn(object):
         self.closed = False
         self.pend = {'write': None, 'read': None}
         self.written = []          # byte strings that reached the peer, one per successful sendall
+        self.buffered = []         # (outcome, data) of the next reads: they return without blocking
 
     def _block(self, kind, arg):
         if self.closed:
             raise _socket.error(9, 'Bad file descriptor')
         assert self.pend[kind] is None, 'two greenlets in %s on one connection' % kind
         p = Pending(kind, arg)
+        if kind == 'read' and self.buffered:
+            p.outcome, p.data = self.buffered.pop(0)
+            return p
         self.pend[kind] = p
         try:
             p.ev.wait()            # gevent.Timeout / GreenletExit are thrown in here
@@ -78,6 +85,11 @@ class StepConn(object):
         p = self.pend[kind]
         p.outcome, p.data = outcome, data
         p.ev.set()
+
+    def release_burst(self, reads):
+        """`reads`: [(outcome, data), ...]; the first goes to the blocked read, the others are buffered"""
+        self.buffered = list(reads[1:])
+        self.release('read', reads[0][0], reads[0][1])
 
 
 class StepSocket(object):
